@@ -108,6 +108,29 @@ def analyse_tu(tu):
                 continue
             if any((o, r) in takeover for o in owner for r in rs):
                 continue
+            if owner and rs and owner <= set(params) and rs <= set(params):
+                # a helper that stores what it is handed: decided at its call sites
+                plist = [p.n for p in fn.kids if p.k == "ParmVarDecl"]
+                sites = ok_sites = 0
+                for cname in tu.order:
+                    cfn = tu.funcs[cname]
+                    cdefs = cparams = None
+                    for c in cfn.walk():
+                        if c.k == "CallExpr" and callee(c) == ("fn", name) and len(c.kids) - 1 == len(plist):
+                            if cdefs is None:
+                                cdefs, cparams = _defs(cfn)
+                            sites += 1
+                            amap = dict(zip(plist, c.kids[1:]))
+                            o2 = set()
+                            for o in owner:
+                                o2 |= roots(amap[o], cdefs, cparams)
+                            r2 = set()
+                            for r in rs:
+                                r2 |= roots(amap[r], cdefs, cparams)
+                            if o2 & r2 or "<out-parameter>" in r2:
+                                ok_sites += 1
+                if sites and sites == ok_sites:
+                    continue
             findings.append(dict(
                 rule="FIRSTBUCKET-INV", function=name, file=n.f, line=n.l,
                 construct="%s->firstbucket computed from %s" % ("/".join(sorted(owner)), "/".join(sorted(rs)) or "?"),
